@@ -14,6 +14,7 @@ LEVEL_TEXT = ("Dataflow rules on the MIR: (N1 freshness) every attribute set tha
               "the mode's own index space (including every ExecutionContext initialiser of the full-match index, C03's E3.x typestate), identically in strict and lazy mode.")
 LEVEL_NOTE = ("Not decided: equality of the two graphs after deleting the debug attributes over all programs; that the parser's locations are "
               "the right ones is C07's clause (E7.l).")
+LEVEL_TEXT += (' The text of a scoped variable is written as scope then name, each formatted directly (no loop).')
 
 DEBUG_FIELDS = ("location_attr", "variable_name_attr", "match_node_attr")
 CFG = "tsg::execution::ExecutionConfig"
@@ -185,6 +186,24 @@ def run(prog, rep):
                     for x in pl.get("p", []):
                         if x["k"] == "field" and x.get("adt") == ty:
                             read.add(x.get("name"))
+        # ... and in the written order: the scope expression first, the variable's own name last (a chain `@x.a.b` prints through the
+        # nested scope's own Display), each formatted directly
+        emitted = []
+        ftr = Tracer(f.body)
+        for b, t in f.body.calls():
+            if is_callee(t, r"Argument::<'_>::new_(display|debug)$"):
+                emitted.append((b, re.sub(r"^[&*]+", "", canon(ftr.operand(t["args"][0])))))
+            elif is_callee(t, r"Formatter::<'_>::write_str$|fmt::Write::write_str$"):
+                a = canon(strip(ftr.operand(t["args"][1])))
+                if not re.match(r'^(promoted\{.*\}|".*")$', a):
+                    emitted.append((b, re.sub(r"^[&*]+", "", a)))
+        emitted.sort(key=lambda x: sum(1 for y in emitted if f.body.dominates(y[0], x[0])))
+        from ..lib.cfgq import natural_loops as _nl
+        want_seq = ["arg:self.scope", "arg:self.name"] if "scope" in allowed else ["arg:self.name"]
+        got_seq = [re.sub(r"^(Deref::deref\(&\*?|Identifier::as_str\(&\*?|String::as_str\(&\*?)+", "", e).rstrip(")") for _b, e in emitted]
+        rep.check(got_seq == want_seq and not _nl(f.body), "C15.N3", "Display for %s :: written order" % ty.rsplit("::", 1)[-1], f.loc(), "writes %s" % " then ".join(want_seq),
+                  "the printed form of %s writes %s%s, not %s: the variable-name debug attribute is no longer the variable's text as written"
+                  % (ty.rsplit("::", 1)[-1], got_seq, " inside a loop" if _nl(f.body) else "", want_seq))
         rep.check(read <= allowed and "name" in read, "C15.N3", "Display for %s :: source text only" % ty.rsplit("::", 1)[-1], f.loc(), "prints %s" % sorted(read),
                   "the printed form of %s also depends on %s: the variable-name debug attribute is no longer the variable's text" % (ty.rsplit("::", 1)[-1], sorted(read - allowed)))
     feats = {}
